@@ -116,7 +116,11 @@ theorem C18_upsert_images (sc : Schema) (cfg : Cfg) (t : Table) (args : Args) (r
       item.after = ((t'.filter fun r => newKeys.contains (keyOf sc r)).filter
         fun r => (hit.map (keyOf sc)).contains (keyOf sc r)).map (project sc (allCols sc))) := by
   intro newKeys hit
-  simp only [stmtPhase1, apply, Except.ok.injEq, Prod.mk.injEq] at h
+  have hany : (asg.any fun a => sc.pk.contains a.1) = false := by
+    cases hb : (asg.any fun a => sc.pk.contains a.1) with
+    | false => rfl
+    | true => simp only [stmtPhase1] at h; rw [if_pos hb] at h; cases h
+  simp only [stmtPhase1, hany, Bool.false_eq_true, if_false, apply, Except.ok.injEq, Prod.mk.injEq] at h
   obtain ⟨ht, hi, hk⟩ := h
   subst ht
   refine ⟨hk.symm, ?_, ?_⟩
@@ -156,5 +160,20 @@ theorem C18_key_update_rejected (sc : Schema) (cfg : Cfg) (t : Table) (args : Ar
     simp only [namesKey, List.any_eq_true]
     exact ⟨p, hp, by simpa using hk⟩
   simp [stmtPhase1, this]
+
+/-- the same for INSERT … ON DUPLICATE KEY UPDATE: a clause that names a key column is rejected before the
+    statement runs, whatever the table and the rows -/
+theorem C18_upsert_key_update_rejected (sc : Schema) (cfg : Cfg) (t : Table) (args : Args)
+    (rows : List (List Expr)) (asg : List (Nat × UpSrc))
+    (h : ∃ p ∈ asg, p.1 ∈ sc.pk) : stmtPhase1 sc cfg t args (.upsert rows asg) = .error .pkChanged := by
+  obtain ⟨p, hp, hk⟩ := h
+  have : (asg.any fun a => sc.pk.contains a.1) = true := by
+    simp only [List.any_eq_true]
+    exact ⟨p, hp, by simpa using hk⟩
+  simp only [stmtPhase1]
+  rw [if_pos this]
+
+example : stmtPhase1 { ncols := 2, pk := [0] } ⟨true, false⟩ [[.int 1, .int 5]] []
+    (.upsert [[.lit (.int 1), .lit (.int 7)]] [(1, .values), (0, .values)]) = .error .pkChanged := rfl
 
 end Seata.Props.C18
